@@ -84,7 +84,7 @@ func NewSkewNormalDistribution(xi Vector, omega Matrix, alpha Vector, scale Vect
   result := SkewNormalDistribution{
     Normal1: *normal1,
     Normal2: *normal2,
-    Xi     : xi,
+    Xi     : xi.CloneVector(),
     Omega  : omega.CloneMatrix(),
     Alpha  : alpha.CloneVector(),
     Scale  : scale.CloneVector(),
